@@ -347,7 +347,7 @@ pub fn opt_space(backend: &str) -> Space<Opts> {
         }
     }
     dims.push(d);
-    dims.push(Dim::new("common_name").v("ascii", |o: &mut Opts| o.cn = Some("My Server".into())).v("non-ascii", |o: &mut Opts| o.cn = Some("S\u{e9}rveur \u{1f980}".into())).v("empty", |o: &mut Opts| o.cn = Some(String::new())));
+    dims.push(Dim::new("common_name").v("ascii", |o: &mut Opts| o.cn = Some("My Server".into())).v("non-ascii", |o: &mut Opts| o.cn = Some("S\u{e9}rveur \u{1f980}".into())).v("empty", |o: &mut Opts| o.cn = Some(String::new())).v("reads as a host name", |o: &mut Opts| o.cn = Some("www.example.com".into())).v("reads as an IP address", |o: &mut Opts| o.cn = Some("192.0.2.7".into())).v("reads as an option", |o: &mut Opts| o.cn = Some("CN=x,O=y".into())));
     let mut d = Dim::new("country").v("DE", |o: &mut Opts| o.country = Some("DE".into())).v("non-printable", |o: &mut Opts| o.country = Some("D\u{e9}".into())).v("non-printable ascii", |o: &mut Opts| o.country = Some("D@".into()));
     // lower case is printable and is carried as given; characters that case mapping or compatibility normalisation
     // would turn into ASCII letters are not printable
